@@ -9,7 +9,7 @@ trap 'rm -rf "$SCR"' EXIT INT TERM
 mkdir -p "$SCR/repo" "$SCR/clean"
 rsync -a --exclude '__pycache__' /repo/src /repo/tests "$SCR/repo/"
 rsync -a --exclude '__pycache__' /repo/src "$SCR/clean/"
-( cd "$SCR/repo" && patch -s -p1 < "$PATCH" ) || { echo "PATCH-FAILED"; exit 2; }
+( cd "$SCR/repo" && patch -s -p1 -F3 --ignore-whitespace --no-backup-if-mismatch < "$PATCH" ) || { echo "PATCH-FAILED"; exit 2; }
 T=$( cd "$SCR/repo" && PYTHONPATH="$SCR/repo/src" /venv/bin/python -m pytest -q -p no:cacheprovider 2>&1 | tail -1 )
 echo "tests-with-change: $T"
 PYTHONPATH="$SCR/repo/src" /venv/bin/python -W ignore "$DEMO" >/dev/null 2>&1; echo "demo-with-change: exit $?"
